@@ -178,7 +178,8 @@ pub fn record_huge_ms(seed: u64, thorough: bool, path: &str) -> Value {
             for p in [k << w, (k << w).saturating_add(1), (k << w).saturating_sub(1)] { if p < *n { set.insert(p); } }
             let distinct = (*m / 3).max(1);
             while set.len() < distinct { set.insert(rng.next() as usize % *n); }
-            let mut items: Vec<(usize, usize)> = set.into_iter().map(|v| (v, 1)).collect();
+            // never more distinct values than values asked for: a single value in a universe next to 2^64 is the extreme of the width rule
+            let mut items: Vec<(usize, usize)> = set.into_iter().take((*m).max(1)).map(|v| (v, 1)).collect();
             let mut total = items.len();
             while total < *m { let k = rng.below(items.len()); let add = rng.range(1, 6).min(*m - total); items[k].1 += add; total += add; }
             let vals: Vec<usize> = items.iter().flat_map(|(v, c)| std::iter::repeat(*v).take(*c)).collect();
